@@ -260,6 +260,10 @@ where
     /// ```
     pub fn find_lpm(&self, prefix: &P) -> Option<TrieView<'a, P, T>> {
         let mut idx = self.loc.idx();
+        // nothing in this view covers `prefix` if the view's node does not
+        if !self.table[idx].prefix.contains(prefix) {
+            return None;
+        }
         let mut best_match = None;
         loop {
             if self.table[idx].value.is_some() {
@@ -804,6 +808,10 @@ where
     /// ```
     pub fn find_lpm(self, prefix: &P) -> Result<Self, Self> {
         let mut idx = self.loc.idx();
+        // nothing in this view covers `prefix` if the view's node does not
+        if !self.table[idx].prefix.contains(prefix) {
+            return Err(self);
+        }
         let mut best_match = None;
         loop {
             if self.table[idx].value.is_some() {
